@@ -612,8 +612,8 @@ PROPS["C05"] = dict(
     ],
     bounds="allocator step: limit any value <= 2^40, counter any value <= limit, request sizes 1/8/72/4096 with "
            "alignments 1/8/16 (collection threshold above the limit, so no collection inside the step); ledger: one "
-           "constructor (function, string of 4 bytes, table, closure, upvalue) under every memory limit 0..=255, "
-           "then clear(); collection: one function object, rooted on the value stack or not",
+           "constructor (function, string of 4 bytes, table, closure, upvalue) under memory limits at and one byte "
+           "around each of its allocation boundaries (concrete per harness), then clear(); collection: one function object, rooted on the value stack or not",
     outside="the collection threshold policy (OutOfMemory with only garbage allocated, see known findings), heaps "
             "with more than one object, table growth, allocation histories",
     explanation="The solver decides for all counter/limit values that a successful allocation charges exactly size+align "
@@ -632,11 +632,18 @@ PROPS["C05"] = dict(
         H("c05", "c05_alloc_step_72_8", bounds="alloc(72, 8)"),
         H("c05", "c05_alloc_step_1_1", "thorough", bounds="alloc(1, 1)"),
         H("c05", "c05_alloc_step_4096_16", "thorough", bounds="alloc(4096, 16)"),
-        H("c05", "c05_ledger_function", bounds="init_function under limit 0..=255, clear()", limits=_GROW0),
-        H("c05", "c05_ledger_string", bounds="init_string(4 bytes) under limit 0..=255, clear()", limits=_GROW0),
-        H("c05", "c05_ledger_table", bounds="init_table under limit 0..=255, clear()", limits=_GROW0),
-        H("c05", "c05_ledger_closure", "thorough", bounds="init_closure under limit 0..=255", limits=_GROW0),
-        H("c05", "c05_ledger_upvalue", "thorough", bounds="init_upvalue under limit 0..=255", limits=_GROW0),
+        H("c05", "c05_ledger_function_95", bounds="init_function with limit 95 (one byte short): fails, nothing accounted", limits=_GROW0),
+        H("c05", "c05_ledger_function_96", "thorough", bounds="init_function with limit 96: succeeds, clear() returns to zero", limits=_GROW0),
+        H("c05", "c05_ledger_string_100", bounds="init_string: header fits, buffer does not (limit 100)", limits=_GROW0),
+        H("c05", "c05_ledger_string_115", "thorough", bounds="init_string: one byte short (limit 115)", limits=_GROW0),
+        H("c05", "c05_ledger_string_116", bounds="init_string: fits exactly (limit 116)", limits=_GROW0),
+        H("c05", "c05_ledger_empty_string_200", bounds="init_string(\"\") (zero-length buffer), clear() returns to zero", limits=_GROW0),
+        H("c05", "c05_ledger_empty_string_98", "thorough", bounds="init_string(\"\"): header fits, the 4-byte buffer charge does not (limit 98)", limits=_GROW0),
+        H("c05", "c05_ledger_table_100", bounds="init_table: header fits, bucket storage does not (limit 100)", limits=_GROW0),
+        H("c05", "c05_ledger_table_423", "thorough", bounds="init_table: one byte short (limit 423)", limits=_GROW0),
+        H("c05", "c05_ledger_table_424", "thorough", bounds="init_table: fits exactly (limit 424)", limits=_GROW0),
+        H("c05", "c05_ledger_closure_96", "thorough", bounds="init_closure with limit 96", limits=_GROW0),
+        H("c05", "c05_ledger_upvalue_95", "thorough", bounds="init_upvalue with limit 95", limits=_GROW0),
         H("c05", "c05_collect_unrooted", bounds="gc() reclaims an unreachable function object", limits=_GROW0),
         H("c05", "c05_collect_rooted", bounds="gc() keeps a function object on the value stack", limits=_GROW0),
     ],
@@ -666,12 +673,13 @@ PROPS["C10"] = dict(
     design_ref="DESIGN.md §3 C10",
     cap=dict(quick=300, thorough=1200),
     harnesses=[
-        H("c10", "c10_roundtrip_ints", bounds="i64,u32,i32,u8 at offset 0..=3; truncated input rejected"),
-        H("c10", "c10_roundtrip_float_handle", bounds="f64 bits and Handle at offset 0..=3"),
+        H("c10", "c10_roundtrip_ints_k0", bounds="i64,u32,i32,u8 at offset 0; truncated input rejected"),
+        H("c10", "c10_roundtrip_ints_k3", "thorough", bounds="same at (unaligned) offset 3"),
+        H("c10", "c10_roundtrip_float_handle_k1", bounds="f64 bits and Handle at offset 1"),
         H("c10", "c10_roundtrip_str_0", "thorough", bounds="empty string"),
-        H("c10", "c10_roundtrip_str_1", "thorough", bounds="1-byte strings"),
-        H("c10", "c10_roundtrip_str_3", bounds="3-byte ASCII strings at offset 0..=3"),
-        H("c10", "c10_roundtrip_str_5", "thorough", bounds="5-byte ASCII strings"),
+        H("c10", "c10_roundtrip_str_1", "thorough", bounds="1-byte strings at offset 2"),
+        H("c10", "c10_roundtrip_str_3", bounds="3-byte ASCII strings at offset 1"),
+        H("c10", "c10_roundtrip_str_5", "thorough", bounds="5-byte ASCII strings at offset 3"),
         H("c10", "c10_decode_str_total_6", bounds="decode_str on any 0..=6 bytes"),
         H("c10", "c10_decode_str_total_8", "thorough", bounds="decode_str on any 0..=8 bytes"),
         H("c10", "c10_span_table", bounds="span for every byte value"),
